@@ -877,3 +877,55 @@ func c21FoldBeforeTruncate(c *Ctx) {
 		c.Unknown("C21.checksum-fold", "tcpipChecksum:truncate", "no uint32 -> uint16 truncation found")
 	}
 }
+
+// ---------------------------------------------------------------------------------------
+// C36: the per-overlay-range remote allow list must be evaluated for the host the address list belongs to. (Seed C36: in
+// handleHostQueryReply the vpn address handed to unlockedSetV4/V6 - the one lighthouse.remote_allow_ranges is looked up for -
+// became the answering lighthouse's address instead of the queried peer's, so addresses denied for the peer's range were kept.)
+func init() {
+	p := registry["C36"]
+	orig, origCan := p.Run, p.Canaries
+	p.Run = func(c *Ctx) { orig(c); c36FilterSubject(c) }
+	p.Canaries = func(c *Ctx) []Canary {
+		return append(origCan(c), Canary{Name: "allow-range-evaluated-for-the-lighthouse", File: "lighthouse.go", Old: "am.unlockedSetV4(fromVpnAddrs[0], certVpnAddr, n.Details.V4AddrPorts, lhh.lh.unlockedShouldAddV4)", New: "am.unlockedSetV4(fromVpnAddrs[0], fromVpnAddrs[0], n.Details.V4AddrPorts, lhh.lh.unlockedShouldAddV4)", Rule: "C36.filter-subject"})
+	}
+}
+
+func c36FilterSubject(c *Ctx) {
+	c.Rule("C36.filter-subject", "K11: at every unlockedSetV4/V6 call the address the allow list is evaluated for (2nd argument) derives from the key with which the receiving RemoteList was obtained from unlockedGetRemoteList", 6)
+	getList := Ref{"", "LightHouse", "unlockedGetRemoteList"}
+	leaf := func(v ssa.Value) bool {
+		switch x := v.(type) {
+		case *ssa.Parameter:
+			return true
+		case *ssa.Call:
+			return builtinName(x) == ""
+		case *ssa.Lookup, *ssa.Extract, *ssa.TypeAssert, *ssa.Next:
+			return true
+		}
+		return false
+	}
+	n := 0
+	for _, f := range c.moduleFuncs() {
+		for _, ci := range callsIn(f, Ref{"", "RemoteList", "unlockedSetV4"}, Ref{"", "RemoteList", "unlockedSetV6"}) {
+			args := callArgs(ci)
+			if len(args) < 3 {
+				continue
+			}
+			src, _ := callOf(args[0])
+			if src == nil || !matchFunc(calleeObj(src), getList) {
+				continue // the receiver is not a freshly looked-up list (methods of RemoteList itself)
+			}
+			n++
+			key := callArgs(src)[1]
+			roots := map[ssa.Value]bool{}
+			backSlice(key, sliceLocal, func(x ssa.Value) {
+				if leaf(x) && x != ssa.Value(src) {
+					roots[x] = true
+				}
+			})
+			shared := derivesFrom(args[2], sliceLocal, func(x ssa.Value) bool { return roots[x] })
+			c.Check(shared && len(roots) > 0, "C36.filter-subject", fmt.Sprintf("%s:%s#%d", fnName(f), calleeObj(ci).Name(), n), c.instrPos(ci.(ssa.Instruction)), "filtered for the host the list belongs to", "the overlay address the remote allow list is evaluated for does not derive from the key of the address list being filled: the per-range rules of another host decide which underlay addresses this peer's list keeps")
+		}
+	}
+}
